@@ -71,7 +71,9 @@ func (e *sgEnv) scBig(s kyber.Scalar) *big.Int {
 // pt returns v·Base.
 func (e *sgEnv) pt(v *big.Int) kyber.Point { return e.suite.Point().Mul(e.sc(v), nil) }
 
-func (e *sgEnv) mockS(v *big.Int) []byte { return new(big.Int).Mod(v, e.q).FillBytes(make([]byte, e.w)) }
+func (e *sgEnv) mockS(v *big.Int) []byte {
+	return new(big.Int).Mod(v, e.q).FillBytes(make([]byte, e.w))
+}
 func (e *sgEnv) mockP(v *big.Int) []byte { return append([]byte{1}, e.mockS(v)...) }
 
 // badS / badP are mock cells that the mock decoder rejects (value out of range / wrong tag).
@@ -141,13 +143,13 @@ func (e *sgEnv) scalarsOf(data []any) []*big.Int {
 // observation wrappers
 
 type sgSpyP struct {
-	e     *sgEnv
-	inner proof.ProverContext
-	pri   []*big.Int // private random scalars in the order drawn
-	pub   []*big.Int // public random scalars in the order obtained
+	e      *sgEnv
+	inner  proof.ProverContext
+	pri    []*big.Int   // private random scalars in the order drawn
+	pub    []*big.Int   // public random scalars in the order obtained
 	rounds [][]*big.Int // the same, per PubRand call
-	npub  int        // PubRand calls
-	puts  [][]sgCell // cells of every Put, grouped by the PubRand round they precede
+	npub   int          // PubRand calls
+	puts   [][]sgCell   // cells of every Put, grouped by the PubRand round they precede
 }
 
 func (s *sgSpyP) Put(m any) error {
@@ -184,11 +186,11 @@ func sgSpyProver(e *sgEnv, p proof.Prover) (proof.Prover, *sgSpyP) {
 }
 
 type sgSpyV struct {
-	e     *sgEnv
-	inner proof.VerifierContext
-	pub   []*big.Int
+	e      *sgEnv
+	inner  proof.VerifierContext
+	pub    []*big.Int
 	rounds [][]*big.Int
-	npub  int
+	npub   int
 }
 
 func (s *sgSpyV) Get(m any) error { return s.inner.Get(m) }
